@@ -125,7 +125,7 @@ pub fn gen_case(rng: &mut Rng, faults: bool) -> CliCase {
                 0 | 1 => format!("open:{}:{}", rng.below(3), rng.pick(&[4, 4, 5, 13, 24, 2, 28, 30])),
                 2 | 3 => format!("read:{}:{}", rng.below(4), rng.pick(&[4, 4, 5, 11, 9])),
                 4 | 5 => format!("read:{}:short={}", rng.below(4), rng.range(1, 7)),
-                6 => format!("write:{}:{}", rng.below(3), rng.pick(&[4, 4, 28, 5, 32])),
+                6 => format!("write:{}:{}", rng.below(3), rng.pick(&[4, 4, 28, 5, 32, 11])),
                 7 | 8 => format!("write:{}:short={}", rng.below(3), rng.range(1, 40)),
                 _ => format!("statx:*:{}", rng.pick(&[5, 38, 13])),
             };
@@ -328,8 +328,13 @@ pub fn exec_case(case: &CliCase, ctr: &mut Ctr) -> Result<Exec, String> {
     let out = crate::cli::run_cli_with(case, case.entropy, &sb, expected.as_deref())?;
     let f = &out.fired;
     if out.report.is_empty() {
-        // the shim reports at least the start-up getenv calls of every run: an empty report means LD_PRELOAD did not take
-        return Err("shim not live: the child produced an empty shim report".into());
+        // the program as it stands always reads its input, so its report is never empty; an empty one means that
+        // LD_PRELOAD did not take (harness error) - unless the canary shows that the shim is fine and this run simply
+        // did nothing at all, which is then for the oracle below to judge
+        if !crate::cli::shim_canary(&sb) {
+            return Err("shim not live: the child produced an empty shim report".into());
+        }
+        bump(ctr, "reach.run_without_any_intercepted_call");
     }
     for (k, n) in [
         ("fault.open_errno_input", f.input_open_err.len() as u64),
@@ -354,7 +359,10 @@ pub fn exec_case(case: &CliCase, ctr: &mut Ctr) -> Result<Exec, String> {
             // process twin: same world, other hash entropy
             let out2 = crate::cli::run_cli_with(case, te, &sb, expected.as_deref())?;
             bump(ctr, "fault.process_entropy_twin");
-            if out2.exit != out.exit || out2.stdout != out.stdout || out2.after.bytes != out.after.bytes {
+            if let Some(v) = judge(case, &expected, &out2, ctr) {
+                // the twin's world differs in hash entropy and environment variables only: it is judged like any run
+                violation = Some(Violation { class: format!("{}:process_twin", v.class), detail: v.detail });
+            } else if out2.exit != out.exit || out2.stdout != out.stdout || out2.after.bytes != out.after.bytes {
                 violation = Some(Violation {
                     class: "process_twin_differs".into(),
                     detail: format!("two processes with different hash entropy produced different results:\n{}\n---\n{}", String::from_utf8_lossy(&out.stdout), String::from_utf8_lossy(&out2.stdout)),
@@ -373,10 +381,14 @@ pub fn exec_case(case: &CliCase, ctr: &mut Ctr) -> Result<Exec, String> {
         let mut fpx = Fnv::new();
         fpx.str(&case.to_j().to_string());
         if !f.getenv.is_empty() && (!unusual.is_empty() || fpx.0 % 10 == 0) {
-            for val in ["1", "/"] {
+            for val in ["1", "/", "", "off", "xml_schema_generator=debug,other=off", "--sort name --parser serde-xml-rs"] {
                 let env: Vec<(String, String)> = f.getenv.iter().map(|n| (n.clone(), val.to_string())).collect();
                 let o2 = crate::cli::run_cli_env(case, case.entropy, &sb, expected.as_deref(), &env)?;
                 bump(ctr, "fault.rerun_with_read_environment_variables_set");
+                if let Some(v) = judge(case, &expected, &o2, ctr) {
+                    violation = Some(Violation { class: format!("{}:with_environment_variable", v.class), detail: format!("with {:?} set to {val:?}: {}", f.getenv, v.detail) });
+                    break;
+                }
                 if o2.exit != out.exit || o2.stdout != out.stdout || o2.after.bytes != out.after.bytes {
                     violation = Some(Violation {
                         class: "outcome_depends_on_environment_variable".into(),
